@@ -132,6 +132,17 @@ def step (fs : List String) : String :=
         ++ "\t" ++ esc (GE.PA.stateExpr sc false a.pas a.pc) ++ "\t" ++ esc (GE.PA.stateExpr sc true a.pas a.pc)
   | ["expr_str", sx] =>
     withExpr sx fun e => esc (GE.Gen.spellAll (GE.Str.strExpr (fun i => s!"s{i}") e))
+  | ["lex_rt", sx] =>
+    -- lexing the spelled printer tokens gives the printer's tokens back (operator texts compared without blanks)
+    withExpr sx fun e =>
+      let ts := GE.Str.strExpr (fun i => s!"s{i}") e
+      let cs := chars (GE.Gen.spellAll ts)
+      let nrm (t : GE.Spec.Tok) : GE.Spec.Tok := match t with
+        | .p x => .p (String.ofList (x.toList.filter (· ≠ ' ')))
+        | t => t
+      match GE.Parse.lex (cs.length + 1) cs with
+      | none => "lex-error"
+      | some ts' => if ts'.map nrm == ts.map nrm then "ok" else "differs"
   | ["esc_body", s] => esc (str (GE.Esc.escBody (chars s)))
   | ["esc_quote", s] => esc (str (GE.Esc.escQuote (chars s)))
   | "decode_text" :: src :: pairs =>
